@@ -35,6 +35,15 @@ CLAIMS = {
  "C11": ("Bounded symbolic verification: the real gateImpl is run against an abstract counting latch for every symbolic driver script of D operations with symbolic 16-bit arguments and every schedule within the delay bound with W waiters; z3 discharges every assertion on every path; lost wake-ups are checked at quiescence.",
          "Trusted: gosmt's SSA semantics, its sync.Mutex/sync.Cond contracts (no spurious wake-ups), context switches only at synchronisation operations; bounds W<=2..3, D<=3..4 ops, <=2..3 delays.",
          TECH + "; schedule and op choices as decision variables"),
+ "C12": ("Bounded symbolic verification of the Runtime API lifecycle: on the FULL composition the first runtime process executes EVERY script of L calls over {next, response(in-flight id), response(stale id), error(in-flight id), init/error} (op choices are decision variables) while two invocations arrive; a reference automaton written from the property text predicts status, error type and blocking behaviour of every call, refused calls must leave it unchanged; plus illegal-call scenarios under all schedules within the delay bound and the snapshot-mode restore calls.",
+         "Trusted as C01; the reference automaton is harness code. Router-level 404/405 and route mounting per init mode are outside. L=4 quick, 5 thorough.",
+         TECH + "; exhaustive symbolic call scripts vs reference automaton"),
+ "C13": ("Bounded symbolic verification of the Extensions API lifecycle: an external and an internal extension each execute EVERY script of L calls over {register(INVOKE), register(unknown event), register(SHUTDOWN), next, init/error, exit/error, unknown / missing / malformed identifier} on the FULL composition against a reference automaton (status, error type, registration data); plus the exit/error-while-parked scenario.",
+         "Trusted as C01; reference automaton is harness code; repeated identical final reports are accepted as 202 or 403 (text silent). Ten-extension limit, cross-kind name collision and accountId feature are outside. L=3 quick, 4 thorough.",
+         TECH + "; exhaustive symbolic call scripts vs reference automaton"),
+ "C18": ("Bounded symbolic verification of the snapshot restore protocol on the ORCH composition in init-caching mode: symbolic runtime behaviour (hook ok / restore error / legacy init error / stalled hook / no restore poll / exit), symbolic error type (SMT strings) and presented credentials token: result of HandleRestore per behaviour, sanitised error type, no release of a runtime parked in next, credentials served only for the generated token, not in the environment, and reflecting the most recent restore.",
+         "Trusted: gosmt SSA semantics/intrinsics; hook timeout is a logical timer firing at quiescence; the wall-clock bound is outside.",
+         TECH + "; ORCH harness in snapshot mode"),
  "C17": ("Bounded symbolic verification of the direct-invoke path: relational statelessness of ReceiveDirectInvoke from havocked package variables vs a fresh process; token/header validation; Complete/Oversized/Truncated classification for symbolic payload length, limit and copy fault; token-bucket inductive lemma; chunk partition; the writer with its real ticker goroutine.",
          "Trusted: gosmt SSA semantics and contracts for io/bytes/http.Header/strconv.ParseInt (uninterpreted)/time.Ticker/channels; <=3 chunks, ticker unwound 4 times, <=1/2 delays; streaming reset path not encoded.",
          TECH + "; relational and inductive harnesses"),
